@@ -1,6 +1,7 @@
 import MW.Inv.Reach
 import MW.Inv.WorldReach
 import MW.Staking.Interface
+import MW.Inv.WorldPayable
 /-!
 # C06 — Unstake batch lifecycle and timing
 -/
@@ -243,6 +244,86 @@ theorem lifecycle_every_world_history (env : Env) (info : Info) (msg : Instantia
     (evs : List MW.Chain.Event) :
     CInv (evs.foldl (fun w e => (MW.Chain.step w e).w) (MW.Chain.bootWorld c0 self pfx t hgt)).c :=
   MW.Chain.world_history_cinv env info msg c0 out hi self pfx t hgt evs
+
+open MW.Chain in
+/-- **on the chain model, every event**: if an event turns a Submitted batch into a Received one, the event is a committed
+transaction or ibc-hooks delivery carrying `ReceiveUnstakedTokens` for that batch, executed as the ibc-hooks account of
+the configured channel and staker, with the staked asset attached (the amount recorded as received), at a block time no
+earlier than the unbonding deadline recorded at submission.  Acknowledgements, timeouts, stray callbacks, donations,
+rolled-back transactions and every other message leave the batch as it was -/
+theorem received_only_by_staker_world (w : World) (hr : CReach w.c) (e : Event) (k : Nat) (b b' : Batch)
+    (hb : w.c.batches.find? k = some b) (hb' : (step w e).w.c.batches.find? k = some b')
+    (hs : b.status = .submitted) (hs' : b'.status = .received) :
+    ∃ sender funds coin t,
+      ((∃ f txi, e = .exec sender funds (.receiveUnstakedTokens k) f txi)
+        ∨ (∃ ch ns c f, e = .hook ch ns c (.receiveUnstakedTokens k) f
+              ∧ deriveIntermediateSender ch ns w.chainPrefix = some sender ∧ funds = [c]))
+      ∧ deriveIntermediateSender w.c.config.proto.channel w.c.config.native.staker w.c.config.proto.accountPrefix = some sender
+      ∧ findCoin funds w.c.config.proto.ibcDenom = some coin ∧ b'.received = some coin.amount
+      ∧ b.nextAction = some t ∧ t ≤ w.timeNs / 1000000000 := by
+  have hi := cinv_reach hr
+  -- one transaction on a world whose store is `w.c`
+  have tx : ∀ (w1 : World) (sender : String) (funds : List Coin) (msg : ExecMsg) (f : Faults) (txi : Option Nat),
+      w1.c = w.c → w1.timeNs = w.timeNs →
+      (runExec w1 sender funds msg f txi).w.c.batches.find? k = some b' →
+      ∃ coin t, msg = .receiveUnstakedTokens k
+        ∧ deriveIntermediateSender w.c.config.proto.channel w.c.config.native.staker w.c.config.proto.accountPrefix = some sender
+        ∧ findCoin funds w.c.config.proto.ibcDenom = some coin ∧ b'.received = some coin.amount
+        ∧ b.nextAction = some t ∧ t ≤ w.timeNs / 1000000000 := by
+    intro w1 sender funds msg f txi hc ht hfind
+    unfold runExec at hfind
+    cases hcore : runExecCore w1 sender funds msg f txi with
+    | mk o calls =>
+      rw [hcore] at hfind
+      cases o with
+      | none =>
+        simp only at hfind
+        rw [hc, hb] at hfind; cases hfind
+        rw [hs] at hs'; cases hs'
+      | some w' =>
+        simp only at hfind
+        obtain ⟨bal1, c', msgs, d, _, hx, hd, hw'⟩ := runExecCore_some hcore
+        subst hw'
+        have hrb := dispatchAll_rb f { w := { w1 with bal := bal1, c := c' },
+                                       calls := [Call.execute { sender, funds } msg (.ok msgs)] } msgs
+        rw [hd] at hrb
+        rw [hrb.2] at hfind
+        rw [hc] at hx
+        obtain ⟨b2, h1, _, _, _, h5⟩ := batch_evolution w.c c' (w1.env txi) { sender, funds } msg msgs hi hx k b hb
+        simp only at hfind
+        rw [h1] at hfind; cases hfind
+        obtain ⟨coin, t, hm, hder, hcoin, hrec, hna, ht'⟩ := h5 hs hs'
+        refine ⟨coin, t, hm, hder, hcoin, hrec, hna, ?_⟩
+        have : (w1.env txi).seconds = w.timeNs / 1000000000 := by
+          simp only [World.env, Env.seconds, ht]
+        rw [this] at ht'; exact ht'
+  by_cases hx : ∃ s fu m f t, e = .exec s fu m f t
+  · obtain ⟨sender, funds, msg, f, txi, rfl⟩ := hx
+    simp only [step] at hb'
+    obtain ⟨coin, t, hm, h2, h3, h4, h5, h6⟩ := tx w sender funds msg f txi rfl rfl hb'
+    subst hm
+    exact ⟨sender, funds, coin, t, .inl ⟨f, txi, rfl⟩, h2, h3, h4, h5, h6⟩
+  by_cases hk : ∃ c n co m f, e = .hook c n co m f
+  · obtain ⟨channel, ns, coin0, msg, f, rfl⟩ := hk
+    simp only [step] at hb'
+    split at hb'
+    · rw [hb] at hb'; cases hb'; rw [hs] at hs'; cases hs'
+    · rename_i acct hacct
+      split at hb'
+      · rw [hb] at hb'; cases hb'; rw [hs] at hs'; cases hs'
+      · split at hb'
+        · obtain ⟨coin, t, hm, h2, h3, h4, h5, h6⟩ :=
+            tx { w with bal := w.bal.add acct coin0.denom coin0.amount } acct [coin0] msg f (some 0) rfl rfl hb'
+          subst hm
+          exact ⟨acct, [coin0], coin, t, .inr ⟨channel, ns, coin0, f, rfl, hacct, rfl⟩, h2, h3, h4, h5, h6⟩
+        · simp only at hb'
+          rw [hb] at hb'; cases hb'; rw [hs] at hs'; cases hs'
+  · exfalso
+    have he : ∀ s fu m f t, e ≠ .exec s fu m f t := fun s fu m f t h => hx ⟨s, fu, m, f, t, h⟩
+    have hh : ∀ c n co m f, e ≠ .hook c n co m f := fun c n co m f h => hk ⟨c, n, co, m, f, h⟩
+    obtain ⟨_, h2⟩ := step_rb_other w e he hh
+    rw [h2, hb] at hb'; cases hb'
+    rw [hs] at hs'; cases hs'
 
 /-- the boundary is `≥` on whole seconds: one second before the deadline the test fails,
 exactly at the deadline (and at any sub-second offset of it) it passes -/
